@@ -169,6 +169,13 @@ def run_scenario(col: Collector, sc, shard_no, slot, index, rng):
     if oc == "watchdog":
         col.not_reached(f"only the wall-clock watchdog fired in scenario {label}")
         return
+    if oc == "hang" and not res.get("fault_fired"):
+        # the property speaks about runs in which a task failed or a worker-side process died; a run that stalls although no
+        # fault was injected (seen only when the machine is starved: a local fire-and-forget callback() with its 1 s linger is
+        # lost) is outside the statement -- it is excluded from the evaluated set and counted, never folded into 'held'
+        col.observe("stall_without_any_injected_fault")
+        col.count("scenarios_excluded_no_fault_fired")
+        return
     if oc == "hang":
         col.violation(f"hang:{label}", f"the run neither returned nor raised: {res['hang']}; fault fired: {res.get('fault_fired')}", wit, index)
         return
